@@ -21,7 +21,7 @@ SPEC = dict(
     assumptions=["expected message = template with placeholders replaced textually (own implementation)",
                  "templates contain no braces other than documented placeholders; OLD/NEW occur as separate words",
                  "real git: only messages that git's own whitespace/comment clean-up leaves unchanged are read back"],
-    required=["real_git_leading_dash_paths", "real_git_pathspec_neighbours", "real_git_push_runs", "real_git_push_from_branch_tracking_a_local_branch", "fake_git_runs", "fake_hg_runs", "real_git_runs", "k12_evaluations", "class:squote", "class:dquote",
+    required=["real_git_leading_dash_paths", "real_git_pathspec_neighbours", "real_git_push_runs", "real_git_push_from_branch_tracking_a_local_branch", "real_git_push_with_column_ui_always", "real_git_push_to_tracked_remote_not_named_origin", "fake_git_runs", "fake_hg_runs", "real_git_runs", "k12_evaluations", "class:squote", "class:dquote",
               "class:backslash", "class:newline", "class:leading-dash", "class:dollar", "class:backtick",
               "hostile_paths_checked", "templates_from_config", "config_templates_with_OLD_NEW_words",
               "templates_from_setup_cfg", "ini_templates_with_percent", "empty_tag_message_from_config"],
@@ -357,12 +357,25 @@ def run_real(ctx, case):
             # (pushed without -u), and the message opens with text that looks like git's `[remote/branch]` column.
             remote = d + ".remote.git"
             git(d, "init", "-q", "--bare", remote)
-            git(d, "remote", "add", "origin", remote)
-            git(d, "push", "-q", "origin", "main")
-            if R.random() < 0.3:
+            tracked_fork = R.random() < 0.35
+            if tracked_fork:
+                # the branch tracks a remote that is NOT called origin (pushed with -u): that is where the push goes
+                git(d, "remote", "add", "fork", remote)
+                git(d, "push", "-q", "-u", "fork", "main")
+                ctx.count("real_git_push_to_tracked_remote_not_named_origin")
+            else:
+                git(d, "remote", "add", "origin", remote)
+                git(d, "push", "-q", "origin", "main")
+            if not tracked_fork and R.random() < 0.3:
                 # the current branch tracks a LOCAL branch (upstream remote "."): the push still has to reach origin
                 git(d, "checkout", "-q", "-b", "feature", "--track", "main")
                 ctx.count("real_git_push_from_branch_tracking_a_local_branch")
+            if R.random() < (0.6 if tracked_fork else 0.3):
+                # a user setting that lays listings out in columns, with a second branch to lay out: the push still
+                # has to happen, and to the same remote
+                git(d, "branch", "dev")
+                git(d, "config", "column.ui", "always")
+                ctx.count("real_git_push_with_column_ui_always")
             pre = R.choice(["[ci/skip] ", "[release/NEW] ", "[x/y] ", ""])
             cm = pre + cm
             want_cm = expand(cm, OLD, NEW, OLD_PEP, NEW_PEP)
